@@ -966,6 +966,46 @@ def shrink(fmt, spec, fails, budget=60):
     return cur
 
 
+def neighbour_search(ck, fmt, spec, n=120):
+    """Directed search around a specification on which model and implementation disagree: the
+    specification itself, each atom alone, then variants with every numeric field redrawn at full
+    precision / at rounding boundaries.  Returns ((key, what), minimal spec) for the first
+    structure inside the format's range on which the oracle fails, else None."""
+    import copy
+
+    rng = __import__("random").Random(ck.seed * 7919 + len(json.dumps(spec)))
+    cands = [spec] + [dict(spec, atoms=[a]) for a in spec["atoms"]]
+    scale = max(fx(v) for v in spec["cell"][:3])
+    for _ in range(n):
+        c = copy.deepcopy(spec)
+        if not c["atoms"]:
+            c["atoms"] = gen_spec(rng, fmt, natoms=2)["atoms"]
+        for a in c["atoms"]:
+            r = rng.random()
+            if r < 0.5:
+                a["xyz"] = [hx(gen_coord(rng, fmt, scale)) for _ in range(3)]
+            if r > 0.3:
+                a["occ"] = hx(rng.choice([rng.random(), _boundary(rng, rng.choice([2, 4]), 0) % 1.0]))
+            if rng.random() < 0.6:
+                a["adp"] = gen_adp(rng, None)
+        if rng.random() < 0.3:
+            c["cell"] = [hx(v) for v in gen_cell(rng, fmt)]
+        if rng.random() < 0.3:
+            c["title"] = rng.choice(TITLES)
+        cands.append(c)
+    f = spec_fails(fmt)
+    for c in cands:
+        try:
+            if f(c):
+                bad, _ = oracle(fmt, build(c))
+                small = shrink(fmt, c, spec_fails(fmt, bad[0]))
+                b2, _ = oracle(fmt, build(small))
+                return (b2 or bad), small
+        except Exception:  # noqa: BLE001
+            continue
+    return None
+
+
 def describe(spec):
     """Human-readable one-line description of a specification (for reports)."""
     cell = [round(fx(v), 6) for v in spec["cell"]]
@@ -1032,6 +1072,7 @@ def corpus():
         one = dict(base, cell=[hx(v) for v in (10, 10, 10, 90, 90.3, 90)],
                    atoms=[{"el": "C", "xyz": [hx(0.25)] * 3, "occ": hx(1.0), "adp": ["iso", hx(0.005)]}])
         out.append((fmt, one))
+        out.append((fmt, dict(one, atoms=[dict(one["atoms"][0], adp=["iso", hx(0.00005)])])))
         out.append((fmt, dict(one, cell=base["cell"], atoms=[dict(one["atoms"][0], xyz=[hx(0.0)] * 3, adp=["zero"])])))
     return out
 
@@ -1076,35 +1117,43 @@ def run(ck):
     for (ci, kind, k, _), o in zip(requests, outs):
         model[(ci, kind, k)] = o
 
-    # ---- verdicts ----
+    # ---- verdicts: oracle failures first, then model/implementation disagreements ----
     nmodel = 0
     nbyte = 0
     reported = set()
+    oracle_failed_formats = set()
     for ci, (fmt, spec, s, bad, info, rng_reason) in enumerate(results):
-        kd = known_defect(fmt, s)
-        if bad is not None:
-            key, what = bad
-            if rng_reason is not None:
-                continue
-            if kd:
-                key = kd
-                stats[fmt]["known_defect"] += 1
-            if key in reported:
-                continue
-            reported.add(key)
-            small = shrink(fmt, spec, spec_fails(fmt, key)) if not kd else spec
-            b2, _ = oracle(fmt, build(small))
-            what2 = b2[1] if b2 else what
-            ck.fail(key, "%s  [minimal structure: %s]" % (what2, describe(small)),
-                    {"kind": "oracle", "format": fmt, "spec": small, "original_spec": spec, "expected": "round trip preserves the carried fields and is a fixed point from the second trip on", "observed": what2})
+        if bad is None or rng_reason is not None:
             continue
-        if fmt not in MODEL_FORMATS:
+        key, what = bad
+        kd = known_defect(fmt, s)
+        if kd:
+            key = kd
+            stats[fmt]["known_defect"] += 1
+        oracle_failed_formats.add(fmt)
+        if key in reported:
+            continue
+        reported.add(key)
+        small = shrink(fmt, spec, spec_fails(fmt, bad[0])) if not kd else spec
+        b2, _ = oracle(fmt, build(small))
+        what2 = b2[1] if b2 else what
+        ck.fail(key, "%s  [minimal structure: %s]" % (what2, describe(small)),
+                {"kind": "oracle", "format": fmt, "spec": small, "original_spec": spec,
+                 "expected": "round trip preserves the carried fields and is a fixed point from the second trip on",
+                 "observed": what2})
+    for ci, (fmt, spec, s, bad, info, rng_reason) in enumerate(results):
+        if bad is not None or fmt not in MODEL_FORMATS:
             continue
         strus = [s] + info["strus"]
         for k, t in enumerate(info["texts"]):
             rp = model.get((ci, "repr", k), "")
-            if "repr=true" not in rp:
-                # the model's Repr excludes it although the real trip works: only the documented carve-outs
+            if "range=true" not in rp:
+                if rng_reason is None and k == 0 and "range=false" in rp:
+                    key = "tie:%s:range" % fmt
+                    if key not in reported:
+                        reported.add(key)
+                        ck.fail(key, "the harness's range predicate accepts a structure that the Lean range_%s rejects: %s" % (fmt, describe(spec)),
+                                {"kind": "correspondence", "format": fmt, "spec": spec, "stream": "fmt.%s.repr" % fmt}, no_failing_input=True)
                 continue
             nmodel += 1
             mlines = [dec(w) for w in model[(ci, "write", k)].split(" ")] if model[(ci, "write", k)] != "" else []
@@ -1117,23 +1166,23 @@ def run(ck):
                 msg2 = diff_docs(fmt, parse_model_doc(fmt, model[(ci, "parse", k)], rd), rd, stru=strus[k + 1])
                 if msg2:
                     msg = "reading: " + msg2
-            if msg is None and model[(ci, "trip", k)] != model[(ci, "quant", k)]:
+            if msg is None and "repr=true" in rp and model[(ci, "trip", k)] != model[(ci, "quant", k)]:
                 msg = "model: parse(write(d)) = %s but quant(d) = %s" % (model[(ci, "trip", k)][:80], model[(ci, "quant", k)][:80])
             if msg:
                 key = "tie:%s" % fmt
-                if key in reported:
-                    continue
+                if key in reported or fmt in oracle_failed_formats:
+                    continue        # a concrete failing input of this format is already reported
                 reported.add(key)
-                # neighbourhood search with the oracle for a concrete failing input
-                small = shrink(fmt, spec, spec_fails(fmt), budget=40)
-                b2, _ = oracle(fmt, build(small))
-                if b2:
-                    ck.fail(b2[0], "%s  [minimal structure: %s]" % (b2[1], describe(small)),
-                            {"kind": "oracle", "format": fmt, "spec": small, "observed": b2[1]})
+                found = neighbour_search(ck, fmt, spec)
+                if found:
+                    b2, small = found
+                    ck.fail(b2[0], "%s  [minimal structure: %s]  (found by the search around a model/implementation disagreement: %s)" % (
+                        b2[1], describe(small), msg), {"kind": "oracle", "format": fmt, "spec": small, "observed": b2[1]})
                 else:
                     ck.fail(key, "model and implementation disagree on trip %d (%s): %s" % (k + 1, fmt, msg),
                             {"kind": "correspondence", "format": fmt, "spec": spec, "trip": k + 1, "observed": msg,
-                             "stream": "fmt.%s.write / fmt.%s.parse" % (fmt, fmt)}, no_failing_input=True)
+                             "stream": "fmt.%s.write / fmt.%s.parse" % (fmt, fmt),
+                             "theorem": "DS.Props.C04.roundtrip_%s (model no longer matches the code)" % fmt}, no_failing_input=True)
     nev = sum(st["cases"] for st in stats.values())
     ck.coverage["evaluations"] += nev * 3
     ck.coverage["distinct_nontrivial"] += len({json.dumps(c[1], sort_keys=True) + c[0] for c in cases if c[1]["atoms"]})
